@@ -107,7 +107,12 @@ class C02(Prop):
                 item = {"k": "custom", "pdu": "response", "varbinds": vbs}
                 if rng.random() < 0.2:
                     item["opts"] = {"w": rng.choice([0, 2, 3, gen.len_width(rng)]), "vw": rng.choice([0, 2, 3, gen.len_width(rng)])}
+                if rng.random() < 0.25:
+                    item["rewrite"] = {"widths": gen.widths(rng, sess["version"] == "v3")}
                 scripts["%d:1" % opid] = {"replies": [item]}
+        if family == "walk" and rng.random() < 0.3:
+            for k in range(1, 12):
+                scripts["%d:%d" % (opid, k)] = {"replies": [{"k": "genuine", "rewrite": {"widths": gen.widths(rng, sess["version"] == "v3")}}]}
         return {"flavour": flavour, "agent": agent, "sessions": [sess], "ops": ops, "scripts": scripts, "latency_ns": 1_000_001, "poison": rng.randrange(256)}
 
     def check(self, run):
